@@ -378,3 +378,153 @@ func init() {
 	}
 	_ = fmt.Sprint
 }
+
+// ---- internal/bytealg assembly routines: computed natively on concrete operands ----
+func init() {
+	concStr := func(v Value) (string, bool) {
+		switch x := v.(type) {
+		case StringV:
+			return x.Concrete()
+		}
+		return "", false
+	}
+	concBytes := func(st *State, v Value) (string, bool) {
+		if s, ok := v.(SliceV); ok {
+			return StringV{st.sliceBytes(s)}.Concrete()
+		}
+		return "", false
+	}
+	byteArg := func(v Value) (byte, bool) {
+		t, ok := v.(*Term)
+		if !ok || !t.IsConst() {
+			return 0, false
+		}
+		return byte(t.Uint64()), true
+	}
+	exact["internal/bytealg.CountString"] = func(e *Engine, st *State, fn *ssa.Function, args []Value, retTo *ssa.Call) (Value, bool) {
+		s, ok1 := concStr(args[0])
+		c, ok2 := byteArg(args[1])
+		if !ok1 || !ok2 {
+			e.unsupported_(st, "bytealg.CountString on symbolic operands")
+			return nil, true
+		}
+		n := 0
+		for i := 0; i < len(s); i++ {
+			if s[i] == c {
+				n++
+			}
+		}
+		return ConstU(uint64(n), 64), true
+	}
+	exact["internal/bytealg.Count"] = func(e *Engine, st *State, fn *ssa.Function, args []Value, retTo *ssa.Call) (Value, bool) {
+		s, ok1 := concBytes(st, args[0])
+		c, ok2 := byteArg(args[1])
+		if !ok1 || !ok2 {
+			e.unsupported_(st, "bytealg.Count on symbolic operands")
+			return nil, true
+		}
+		n := 0
+		for i := 0; i < len(s); i++ {
+			if s[i] == c {
+				n++
+			}
+		}
+		return ConstU(uint64(n), 64), true
+	}
+	idx := func(s string, c byte) int64 {
+		for i := 0; i < len(s); i++ {
+			if s[i] == c {
+				return int64(i)
+			}
+		}
+		return -1
+	}
+	exact["internal/bytealg.IndexByteString"] = func(e *Engine, st *State, fn *ssa.Function, args []Value, retTo *ssa.Call) (Value, bool) {
+		s, ok1 := concStr(args[0])
+		c, ok2 := byteArg(args[1])
+		if !ok1 || !ok2 {
+			// symbolic: first position whose byte equals c, as an ite chain (no fork)
+			sv, isS := args[0].(StringV)
+			ct, isT := args[1].(*Term)
+			if !isS || !isT {
+				e.unsupported_(st, "bytealg.IndexByteString operands")
+				return nil, true
+			}
+			res := ConstI(-1, 64)
+			for i := len(sv.B) - 1; i >= 0; i-- {
+				res = Ite(Eq(sv.B[i], ct), ConstI(int64(i), 64), res)
+			}
+			return res, true
+		}
+		return ConstI(idx(s, c), 64), true
+	}
+	exact["internal/bytealg.IndexByte"] = func(e *Engine, st *State, fn *ssa.Function, args []Value, retTo *ssa.Call) (Value, bool) {
+		sl, isS := args[0].(SliceV)
+		ct, isT := args[1].(*Term)
+		if !isS || !isT {
+			e.unsupported_(st, "bytealg.IndexByte operands")
+			return nil, true
+		}
+		bs := st.sliceBytes(sl)
+		res := ConstI(-1, 64)
+		for i := len(bs) - 1; i >= 0; i-- {
+			res = Ite(Eq(bs[i], ct), ConstI(int64(i), 64), res)
+		}
+		return res, true
+	}
+	exact["internal/bytealg.IndexString"] = func(e *Engine, st *State, fn *ssa.Function, args []Value, retTo *ssa.Call) (Value, bool) {
+		a, ok1 := concStr(args[0])
+		b, ok2 := concStr(args[1])
+		if !ok1 || !ok2 {
+			e.unsupported_(st, "bytealg.IndexString on symbolic operands")
+			return nil, true
+		}
+		for i := 0; i+len(b) <= len(a); i++ {
+			if a[i:i+len(b)] == b {
+				return ConstI(int64(i), 64), true
+			}
+		}
+		return ConstI(-1, 64), true
+	}
+}
+
+// errors.Is without reflection: walk the Unwrap chain comparing by identity/equality (custom Is methods are not used by
+// the error types in scope).
+func init() {
+	exact["errors.Is"] = func(e *Engine, st *State, fn *ssa.Function, args []Value, retTo *ssa.Call) (Value, bool) {
+		cur, ok := args[0].(IfaceV)
+		target, ok2 := args[1].(IfaceV)
+		if !ok || !ok2 {
+			return nil, false
+		}
+		for depth := 0; depth < 16; depth++ {
+			if cur.T == nil {
+				return ConstBool(target.T == nil), true
+			}
+			if c := e.equal(st, cur, target); c != nil && c.IsTrue() {
+				return True, true
+			}
+			if cur.T == opaqueType {
+				return False, true
+			}
+			sel := e.prog.MethodSets.MethodSet(cur.T).Lookup(nil, "Unwrap")
+			if sel == nil {
+				return False, true
+			}
+			m := e.prog.MethodValue(sel)
+			if m == nil || m.Signature.Results().Len() != 1 {
+				return False, true
+			}
+			r := e.callSync(st, FuncV{Fn: m}, []Value{cur.V})
+			if st.status != Running {
+				return nil, true
+			}
+			next, ok := r.(IfaceV)
+			if !ok {
+				return False, true
+			}
+			cur = next
+		}
+		return False, true
+	}
+}
